@@ -642,6 +642,23 @@ def run(repo: Repo, chk: Check, thorough: bool = False) -> None:
     if n159 < 1:
         raise AnalysisError('R15.9: no _set_precedence site with a lowered precedence found (1 confirmed: dict values)')
     chk.require('R15.9', 1)
+    # the other end of the same mechanism: where nothing was forced, the operator is compared with the HIGHEST precedence (parenthesise unless told otherwise).
+    # A lower default chosen from the CLASS of the parent (Call, Subscript) ignores which field holds the operator: arguments and indexes are delimited,
+    # the callee and the subscripted value are not - `(a or b)[0]` would be shown as `a or b[0]`.  A lowered default needs an identity test of the field
+    di = repo.func(f'{DELIM}.__init__')
+    cfd = CFG(di)
+    gets = [c for c in calls_in(di) if call_name(c) == 'get' and isinstance(c.func, ast.Attribute) and 'explicit_precedence' in norm(c.func.value)]
+    if not gets:
+        raise AnalysisError('R15.9: _OperatorDelimiter.__init__ no longer reads explicit_precedence.get(node, <default>)')
+    for k_, c in enumerate(gets):
+        dflt = c.args[1] if len(c.args) > 1 else None
+        high = dflt is not None and norm(dflt).endswith('Precedence.highest')
+        field_test = any(pol and isinstance(t, ast.Compare) and len(t.ops) == 1 and isinstance(t.ops[0], ast.Is) and isinstance(t.comparators[0], ast.Attribute)
+                         for t, pol in cfd.dominating_tests(cfd.stmt_of(c)))
+        chk.ob('R15.9', f'{DELIM}.__init__ :: default precedence #{k_ + 1} of a position nothing was forced onto is the highest', high or field_test,
+               'Precedence.highest' if high else 'lowered under an identity test of the field that holds the operator' if field_test else
+               f'default `{norm(dflt) if dflt is not None else "None"}` chosen from the class of the parent alone: the operator may be the callee / the subscripted value, where no delimiter '
+               'follows - `(a or b)[0]` is shown as `a or b[0]`, `(a+b)(c)` as `a+b(c)`, `(-a)[1:]` as `-a[1:]` (valid Python, another grouping)', repo.loc(di.mod, c))
 
     # ------------------------------------------------------------------ R15.8
     # the secondary (plain text) rendering of a colorized value shows the text of the whole document ParsedDocstring.to_node() returns.  docutils'
